@@ -9,6 +9,7 @@ space (or to the depth cap, reported), i.e. it covers every history of any lengt
 as long as closure is reached.  Invariant on every transition: the answer equals the answer of a
 freshly constructed crystal with the same cell, space group and asymmetric unit.
 """
+from mc.paths import TEST_FILES
 import copy
 import os
 
@@ -120,7 +121,7 @@ def initial(kind):
     if kind == "water_H_cif":
         return Crystal.from_cif_string(water_r3("H").to_cif_string())
     if kind == "r3c_example":
-        return Crystal.load("/repo/src/chmpy/tests/test_files/r3c_example.cif")
+        return Crystal.load(TEST_FILES + "r3c_example.cif")
     raise KeyError(kind)
 
 
